@@ -1,6 +1,7 @@
 package checks
 
 import (
+	"sort"
 	"bufio"
 	"bytes"
 	"context"
@@ -207,7 +208,72 @@ loop:
 			}
 		}
 	}
-	return atomic.LoadInt64(&n)
+	return atomic.LoadInt64(&n) + c19EndpointSQL(run, u, gen, la, lb, seeds)
+}
+
+// c19EndpointSQL: on the production store (SQLite, one connection) a request
+// must not leave the witness unable to answer the next one: every ordered
+// pair of the named requests (one of every verdict class, incl. the one that
+// is refused only after the store was opened for writing) from both start
+// states, each followed by a read; a call that does not return within 20 s is
+// a hang.
+func c19EndpointSQL(run *ev.Run, u *uni.U, gen *wh.CPGen, la, lb wh.LogCfg, seeds map[string][]byte) int64 {
+	var names []string
+	for k := range seeds {
+		names = append(names, k)
+	}
+	sort.Strings(names)
+	// A first submission that cannot be cosigned (99 unknown signature lines).
+	cpJ, _ := gen.Get(lb, u.Main, 3, "junk99")
+	seeds["first-use-many-sig-lines"] = c10Body(0, nil, cpJ)
+	names = append(names, "first-use-many-sig-lines")
+	var n int64
+	hung := false
+	within := func(f func()) bool {
+		done := make(chan struct{})
+		go func() { defer close(done); f() }()
+		select {
+		case <-done:
+			return true
+		case <-time.After(20 * time.Second):
+			return false
+		}
+	}
+	for _, seeded := range []bool{false, true} {
+		for _, x := range names {
+			for _, y := range names {
+				if hung {
+					return n
+				}
+				e := wh.NewEnv(u, wh.Config{Store: "sql", Logs: []wh.LogCfg{la, lb}})
+				if seeded {
+					cp, meta := gen.Get(la, u.Main, 4, "plain")
+					e.Do(wh.Req{LogID: la.ID(), CP: cp, Meta: meta})
+				}
+				h := bastion.VerifNewHandler(omniwitness.VerifWitnessAdapter(e.W), c10Logs(la, lb), u.W1.CosigVerif, rate.Inf, 1, true)
+				step := ""
+				ok := within(func() {
+					step = "request " + x
+					c10Serve(h, seeds[x])
+					step = "request " + y + " after " + x
+					c10Serve(h, seeds[y])
+					step = "read after " + x + ", " + y
+					_, _ = e.W.GetCheckpoint(la.ID())
+					_, _ = e.W.GetLogs()
+				})
+				n += 2
+				if !ok {
+					hung = true
+					run.Report("endpoint-hang store=sql after="+x, fmt.Sprintf("SQLite-backed witness (one connection), witness holds a checkpoint: %v: %s did not return within 20 s", seeded, step),
+						map[string]any{"kind": "http-sequence-sql", "seeded": seeded, "first": x, "second": y})
+					continue // the environment is abandoned (its connection is held)
+				}
+				e.Close()
+			}
+		}
+	}
+	run.Set("endpoint_sql_sequences", n/2)
+	return n
 }
 
 // ---------------------------------------------------------------- feeders
